@@ -41,6 +41,21 @@ func c19Obs(o obj, set hotstuff.IDSet, probe []int) {
 			}
 		}
 	}
+	// an iteration that is told to stop after k members visits exactly the first k members
+	for k := 1; k <= 3 && k <= len(iter2); k++ {
+		var got []int
+		set.RangeWhile(func(id hotstuff.ID) bool { got = append(got, int(id)); return len(got) < k })
+		if len(got) != k {
+			iter = append(iter, -2) // makes the line fail
+			break
+		}
+		for i := range got {
+			if got[i] != iter2[i] {
+				iter = append(iter, -2)
+				break
+			}
+		}
+	}
 	o["len"] = set.Len()
 	o["iter"] = iter
 	o["probe"] = probe
